@@ -439,6 +439,8 @@ theorem step_subInv (c : Cfg) (s : St) (h : SubInv s) (op : Op) : SubInv (step c
   | dropEnt p ent =>
     have := dropEntity_shape c s p ent
     exact h.of_sublist this.1 (by simp only [step]; rw [this.2.2.1]; exact Nat.le_refl _)
+  | subsPass p ent => exact h.of_sublist List.filter_sublist (Nat.le_refl _)
+  | bindsPass p ent => exact h.of_sublist (List.Sublist.refl _) (Nat.le_refl _)
 
 theorem step_bindInv (c : Cfg) (s : St) (h : BindInv s) (op : Op) : BindInv (step c s op) := by
   cases op with
@@ -460,6 +462,8 @@ theorem step_bindInv (c : Cfg) (s : St) (h : BindInv s) (op : Op) : BindInv (ste
   | dropEnt p ent =>
     have := dropEntity_shape c s p ent
     exact h.of_sublist this.2.1 (by simp only [step]; rw [this.2.2.2]; exact Nat.le_refl _)
+  | subsPass p ent => exact h.of_sublist (List.Sublist.refl _) (Nat.le_refl _)
+  | bindsPass p ent => exact h.of_sublist List.filter_sublist (Nat.le_refl _)
 
 theorem history_subInv (c : Cfg) (loc : List Feat) (rem : Nat → List Feat) (ops : List Op) :
     SubInv (ops.foldl (step c) { loc := loc, rem := rem }) := by
@@ -596,6 +600,8 @@ theorem step_sane_clean (s : St) (h : Sane s) (op : Op) : Sane (step Cfg.clean s
     exact h.of_sublist this.1 (by simp only [step]; rw [binds_unsub]; exact List.Sublist.refl _) this.2.2.1
   | drop p => exact h.of_sublist List.filter_sublist List.filter_sublist rfl
   | dropEnt p ent => exact dropEntity_sane_clean s h p ent
+  | subsPass p ent => exact h.of_sublist List.filter_sublist (List.Sublist.refl _) rfl
+  | bindsPass p ent => exact h.of_sublist (List.Sublist.refl _) List.filter_sublist rfl
 
 /-- repaired code, every history: every registry entry refers to an entity its peer currently announces -/
 theorem history_sane_clean (loc : List Feat) (rem : Nat → List Feat) (ops : List Op) :
@@ -647,6 +653,93 @@ theorem dropEntity_any_peer_witness :
 end Spine.Reg
 
 namespace Spine.Reg
+
+/-! ### a teardown as the passes it consists of -/
+
+theorem subsPasses_subs (s : St) (p : Nat) (ents : List (List Nat)) :
+    (ents.foldl (fun s e => subsPass s p e) s).subs = s.subs.filter (fun e => !(e.peer = p && ents.contains e.cEnt)) ∧
+    (ents.foldl (fun s e => subsPass s p e) s).binds = s.binds ∧
+    (ents.foldl (fun s e => subsPass s p e) s).rem = s.rem := by
+  induction ents generalizing s with
+  | nil => exact ⟨(List.filter_eq_self.mpr (by intro a _; simp)).symm, rfl, rfl⟩
+  | cons a ents ih =>
+    simp only [List.foldl_cons]
+    have := ih (subsPass s p a)
+    refine ⟨?_, this.2.1, this.2.2⟩
+    rw [this.1]
+    simp only [subsPass, List.filter_filter]
+    apply List.filter_congr
+    intro e _
+    by_cases hp : e.peer = p <;> by_cases ha : e.cEnt = a <;> by_cases hm : e.cEnt ∈ ents <;>
+      simp [hp, ha, hm]
+
+theorem bindsPasses_binds (c : Cfg) (s : St) (p : Nat) (ents : List (List Nat)) :
+    (ents.foldl (fun s e => bindsPass c s p e) s).binds =
+      s.binds.filter (fun e => !((c.dropBindsAnyPeer || e.peer = p) && ents.contains e.cEnt)) ∧
+    (ents.foldl (fun s e => bindsPass c s p e) s).subs = s.subs := by
+  induction ents generalizing s with
+  | nil => exact ⟨(List.filter_eq_self.mpr (by intro a _; simp)).symm, rfl⟩
+  | cons a ents ih =>
+    simp only [List.foldl_cons]
+    have := ih (bindsPass c s p a)
+    refine ⟨?_, this.2⟩
+    rw [this.1]
+    simp only [bindsPass, List.filter_filter]
+    apply List.filter_congr
+    intro e _
+    cases hp : (c.dropBindsAnyPeer || decide (e.peer = p)) <;> by_cases ha : e.cEnt = a <;>
+      by_cases hm : e.cEnt ∈ ents <;> simp [ha, hm]
+
+/-- RemoveRemoteDevice is exactly: for every entity of the peer a subscription pass, then for every entity a binding
+    pass (every member of the family) -/
+theorem dropPeer_eq_passes (c : Cfg) (s : St) (p : Nat) :
+    let ents := (s.rem p).map (·.ent)
+    let s1 := ents.foldl (fun s e => subsPass s p e) s
+    let s2 := ents.foldl (fun s e => bindsPass c s p e) s1
+    (dropPeer c s p).subs = s2.subs ∧ (dropPeer c s p).binds = s2.binds := by
+  intro ents s1 s2
+  have h1 := subsPasses_subs s p ents
+  have h2 := bindsPasses_binds c s1 p ents
+  refine ⟨?_, ?_⟩
+  · rw [h2.2, h1.1]; rfl
+  · rw [h2.1, h1.2.1]; rfl
+
+/-- the removal of an entity is one subscription pass and one binding pass for it -/
+theorem dropEntity_eq_passes (c : Cfg) (s : St) (p : Nat) (ent : List Nat)
+    (hex : ((s.rem p).map (·.ent)).contains ent = true) :
+    (dropEntity c s p ent).subs = (bindsPass c (subsPass s p ent) p ent).subs ∧
+    (dropEntity c s p ent).binds = (bindsPass c (subsPass s p ent) p ent).binds := by
+  unfold dropEntity
+  rw [hex]
+  exact ⟨rfl, rfl⟩
+
+/-- every member: a subscription pass for peer `p` leaves the list of every other peer exactly as it is -/
+theorem subsPass_others (s : St) (p q : Nat) (hq : q ≠ p) (ent : List Nat) :
+    subsOf (subsPass s p ent) q = subsOf s q ∧ bindsOf (subsPass s p ent) q = bindsOf s q := by
+  refine ⟨?_, rfl⟩
+  simp only [subsOf, subsPass, List.filter_filter]
+  apply List.filter_congr
+  intro e _
+  by_cases he : e.peer = q
+  · simp [he, hq]
+  · simp [he]
+
+/-- repaired code: so does a binding pass -/
+theorem bindsPass_others (s : St) (p q : Nat) (hq : q ≠ p) (ent : List Nat) :
+    bindsOf (bindsPass Cfg.clean s p ent) q = bindsOf s q ∧ subsOf (bindsPass Cfg.clean s p ent) q = subsOf s q := by
+  refine ⟨?_, rfl⟩
+  simp only [bindsOf, bindsPass, clean_dropAny, Bool.false_or, List.filter_filter]
+  apply List.filter_congr
+  intro e _
+  by_cases he : e.peer = q
+  · simp [he, hq]
+  · simp [he]
+
+/-- the code as written: a binding pass for entity [1] of peer 1 deletes the binding peer 2 was just granted -/
+theorem bindsPass_any_peer_witness :
+    let fs : List Feat := [⟨[1], 1, 1, .client⟩]
+    let s : St := { loc := [⟨[1], 1, 1, .server⟩], rem := fun _ => fs }
+    (addBind s 2 [1] 1 [1] 1 1).2 = true ∧ bindsOf (bindsPass {} (addBind s 2 [1] 1 [1] 1 1).1 1 [1]) 2 = [] := by decide
 
 /-! ### AddBinding as the two halves the code as written runs in separate critical sections -/
 
